@@ -72,14 +72,43 @@ def _report_rejection(ctx, trace, label, last, reason, origin):
     if ok:
         raise vlib.ToolError("round %d of %s is rejected in context but accepted alone" % (last, trace))
     evs = [json.loads(e) for e in events]
-    inits = [e for e in evs if e["e"] == "InitRet"]
-    obs = [e for e in evs if e["e"] == "ObsRet"]
+    kinds = {e["i"]: e["k"] for e in evs if e["e"] == "InitCall"}
+    inits = ["%d:%s=%s%s" % (e["i"], kinds.get(e["i"], "?"), e["r"], "" if e.get("own", True) else "(foreign refs)")
+             for e in evs if e["e"] == "InitRet"]
+    pending, obs = {}, []
+    for e in evs:
+        if e["e"] == "ObsCall":
+            pending[e["o"]] = e
+        elif e["e"] == "ObsRet":
+            c = pending.pop(e["o"], {"op": "?"})
+            if c["op"] == "flush":
+                d = "flush(%s,%s)->%s/emitter:%s" % (c.get("via"), c.get("tmo"), e["fl"],
+                                                     {0: "not asked", 1: False, 2: True}.get(e.get("fa")))
+            elif c["op"] == "is_enabled":
+                d = "is_enabled->%s" % e["en"]
+            else:
+                d = "%s->%s" % (c["op"], [t for t in e["tags"] if t != 99])
+            obs.append("%d:%s%s" % (e["o"], d, " PANIC" if e["pan"] else ""))
+    hangs = ["HANG in %s" % e["in"] for e in evs if e["e"] == "Hang"]
     sig = "C20 %s: round rejected (%s); results %s; observations %s" % (
-        origin, reason1 or reason,
-        ",".join("%d:%s" % (e["i"], e["r"]) for e in inits),
-        ";".join("%d:%s%s" % (e["o"], e["tags"], "!" if e["pan"] else "") for e in obs)[:300])
+        origin, reason1 or reason, ",".join(inits), ("; ".join(obs + hangs))[:500])
     ctx.violation(sig, {"origin": origin, "round": last, "events": evs},
                   signature="C20 %s round rejected: %s" % (origin, reason1 or reason))
+
+
+def _report_hang(ctx, tdir, origin):
+    """A round in which a call of the code under test never returned: the statement says
+    nothing blocks or panics; the round (with its Hang event) is the replay."""
+    path = os.path.join(tdir, "hang.ndjson")
+    evs = [json.loads(l) for l in open(path) if l.strip()]
+    ok, _, reason = _validate(ctx, path, "hang")
+    if ok:
+        raise vlib.ToolError("a round with a Hang event was accepted by SlotTrace.tla")
+    hangs = [e for e in evs if e["e"] == "Hang"]
+    ctx.violation("C20 %s: call never returned (watchdog): %s" % (
+        origin, "; ".join(h["in"] for h in hangs)[:300]),
+        {"origin": origin, "round": evs[0].get("n"), "events": evs},
+        signature="C20 %s hang: %s" % (origin, ";".join(h["in"] for h in hangs)[:200]))
 
 
 def run(ctx):
@@ -123,9 +152,15 @@ def run(ctx):
     children = 60 if ctx.quick else 300
     tdir = os.path.join(ctx.out, "traces")
     os.makedirs(tdir, exist_ok=True)
-    ctx.run_harness(exe, ["rounds", tdir, rounds, shards, 3], timeout=900)
+    # exit code 3: a call into the code under test did not return within the harness's
+    # watchdog (10 s per round); the round so far is in traces/hang.ndjson
+    p = ctx.run_harness(exe, ["rounds", tdir, rounds, shards, 3], timeout=900, ok_codes=(0, 3))
+    if p.returncode == 3:
+        return _report_hang(ctx, tdir, "fresh slot")
     gtrace = os.path.join(tdir, "global.ndjson")
-    ctx.run_harness(exe, ["global", gtrace, children], timeout=900)
+    p = ctx.run_harness(exe, ["global", gtrace, children], timeout=900, ok_codes=(0, 3))
+    if p.returncode == 3:
+        return _report_hang(ctx, tdir, "global slot")
     jobs = [("shard%d" % k, os.path.join(tdir, "trace-%d.ndjson" % k), "fresh slot")
             for k in range(shards)]
     jobs.append(("global", gtrace, "global slot"))
@@ -175,6 +210,11 @@ def run(ctx):
         "components are test doubles tagged with the initialiser index; 'receiving an event' = "
         "any invocation of a tagged component (counted per tag, Tally)",
         "std::sync::OnceLock::set / get are linearizable (the TrySet / Read steps of the spec)",
+        "flush observations use seeded timeouts {0, 1 ns, 1 ms, 1 s, Duration::MAX} through "
+        "get().emitter(), the runtime as Emitter and (global slot) emit::blocking_flush; on an "
+        "initialised slot the value returned must be the tagged emitter's answer",
+        "panics of the code under test are caught per call and are the logged result; a call "
+        "that does not return within 10 s (harness watchdog) is reported as a violation",
         "Slot.tla checked exhaustively only within: " + "; ".join(
             vlib.cfg_header(os.path.join(vlib.SPEC, c)) for c in cfgs),
     ]
